@@ -57,6 +57,134 @@ def loop_shape(lp):
     return iv, i0, R.key(lp.get("cond")), R.key(lp.get("inc"))
 
 
+def is_std(t):
+    return re.match(r"(const )?std::(vector|array|map)<", t or "") is not None
+
+
+def decls_of(body):
+    return {dd["name"]: dd.get("init") for x, _ in R.find(body, lambda x: x.get("k") == "Decl") for dd in x["decls"] if dd.get("init") is not None}
+
+
+def std_filler(f, rep, where):
+    """H6: the three std-container overloads of fill_histogram"""
+    pn = [p["name"] for p in f["params"]]
+    sv, hv, acc = pn
+    cont = re.match(r"std::(\w+)<", f["params"][1]["type"]).group(1)
+    key = "H6:fill_histogram(std::%s)%s" % (cont, re.sub(r"^std::\w+", "", f["params"][1]["type"]).replace(" &", ""))
+    prob = []
+    body = R.strip(f["body"])
+    items = [R.strip(x) for x in body.get("c", [])]
+    decl = decls_of(f["body"])
+    # reset: exactly one conditional statement, condition == !accumulate, resets the whole container
+    ifs = [x for x in items if x.get("k") == "If"]
+    nested_ifs = [x for x, _ in R.find(f["body"], lambda x: x.get("k") in ("If", "Cond", "Switch", "For", "While", "Do", "ForRange"))]
+    if len(ifs) != 1 or len(nested_ifs) != 1:
+        prob.append("expected exactly one conditional (the reset), found %d top-level / %d in all" % (len(ifs), len(nested_ifs)))
+    else:
+        ok, at = same_function(ifs[0]["cond"], "not acc", lambda a: {acc: "acc"}.get(a, a))
+        if not ok or ifs[0].get("else") is not None:
+            prob.append("reset condition over %s is not `!accumulate`" % at)
+        resets = [R.key(c) for c, _ in R.find(ifs[0].get("then"), lambda y: y.get("k") == "Call") if not R.key(c).startswith(("begin(", "end("))]
+        want = ["fill(begin(%s),end(%s),0)" % (hv, hv)] if cont == "array" else ["%s.clear()" % hv]
+        if resets != want:
+            prob.append("reset statement %s, expected %s" % (resets, want))
+    # the loop: one unconditional for_each_pixel over the gray conversion of the source view
+    top_calls = [x for x in items if x.get("k") == "Call"]
+    loops = [x for x in top_calls if x["callee"]["name"] == "boost::gil::for_each_pixel"]
+    all_loops = [x for x, _ in R.calls_in(f["body"], lambda n: n.endswith("for_each_pixel"))]
+    lam = None
+    if len(loops) != 1 or len(all_loops) != 1:
+        prob.append("expected one unconditional for_each_pixel, found %d" % len(all_loops))
+    else:
+        lk = R.key(loops[0])
+        if lk != "for_each_pixel(color_converted_view(%s),Lambda)" % sv:
+            prob.append("pixel loop is %s" % lk)
+        ccv = [c for c, _ in R.calls_in(loops[0], lambda n: n.endswith("color_converted_view"))]
+        m = re.match(r"boost::gil::color_converted_view<boost::gil::pixel<([^,]+), boost::gil::layout<boost::mp11::mp_list<boost::gil::gray_color_t>", ccv[0]["callee"]["full"]) if ccv else None
+        if not m:
+            prob.append("the source is not converted to a gray pixel")
+        chan = m.group(1) if m else None
+        lam = [x for x, _ in R.find(loops[0], lambda x: x.get("k") == "Lambda")]
+        lam = lam[0] if lam else None
+    # sizing (vector): resize(max+1) unconditionally, before the loop
+    lim = None
+    for c, _ in R.calls_in(f["body"], lambda n: n == "std::numeric_limits::max"):
+        lim = c["callee"]["cls"]
+    if cont == "vector":
+        rs = [x for x in top_calls if x["callee"]["name"] == "std::vector::resize"]
+        if len(rs) != 1 or R.key(rs[0]) != "%s.resize((max() + 1))" % hv:
+            prob.append("sizing statement %s, expected %s.resize(max()+1)" % ([R.key(x) for x in rs], hv))
+        elif items.index(rs[0]) > items.index(loops[0]) if loops else False:
+            prob.append("the vector is sized after the pixel loop")
+        if loops and lim != "std::numeric_limits<%s>" % chan:
+            prob.append("the vector is sized from %s but indexed by %s" % (lim, chan))
+    # the increment
+    if lam is not None:
+        incs = [x for x, _ in R.find(lam["body"], lambda x: (x.get("k") == "Unary" and x.get("op") in ("++", "--")) or x.get("k") in ("CompoundAssign", "Assign"))]
+        lp = lam["params"][0]["name"] if lam.get("params") else "p"
+        conv = r"%s\.operator [\w ]+\(\)" % re.escape(lp)
+        if cont == "array":
+            pat = r"\(\+\+%s\[\(%s \* scale\)\]\)" % (re.escape(hv), conv)
+            sk = R.key(decl["scale"]) if "scale" in decl else None
+            mk = R.key(decl["pixel_max"]) if "pixel_max" in decl else None
+            if sk != "((%s.size() - 1) / pixel_max)" % hv or mk != "max()":
+                prob.append("scale = %s with pixel_max = %s, expected (size-1)/max" % (sk, mk))
+            if loops and lim != "std::numeric_limits<%s>" % chan:
+                prob.append("scale uses %s but the converted channel is %s" % (lim, chan))
+        else:
+            pat = r"\(\+\+%s\[%s\]\)" % (re.escape(hv), conv)
+        ks = [R.key(x) for x in incs]
+        if len(ks) != 1 or not re.fullmatch(pat, ks[0]):
+            prob.append("bin updates %s, expected a single ++%s[index of the gray value]" % (ks, hv))
+        if [x for x, _ in R.find(lam["body"], lambda x: x.get("k") in ("If", "Cond", "Switch", "For", "While", "Do", "Return", "Continue"))]:
+            prob.append("the increment is conditional")
+    if prob:
+        rep.violation("H6-std-fill", key, where, {"problems": prob})
+    else:
+        rep.ok("H6-std-fill", key, "reset iff !accumulate; sized max+1 / scaled (size-1)/max; one ++bin[gray] per pixel of the whole view")
+
+
+def std_cumulative(f, rep, where):
+    """H7: running sums in index / key order"""
+    hv = f["params"][0]["name"]
+    cont = re.match(r"(?:const )?std::(\w+)<", f["params"][0]["type"]).group(1)
+    key = "H7:cumulative_histogram(std::%s)%s" % (cont, re.sub(r"^(const )?std::\w+", "", f["params"][0]["type"]).replace(" &", ""))
+    prob = []
+    decl = {k: R.key(v) for k, v in decls_of(f["body"]).items()}
+    stm = [(x, p) for x, p in R.find(f["body"], lambda x: x.get("k") in ("Assign", "CompoundAssign") or (x.get("k") == "Unary" and x.get("op") in ("++", "--")))]
+    ret = [R.key(x.get("e")) for x, _ in R.find(f["body"], lambda x: x.get("k") == "Return")]
+    loops = [x for x, _ in R.find(f["body"], lambda x: x.get("k") in ("For", "ForRange", "While", "Do"))]
+    if len(loops) != 1:
+        prob.append("%d loops" % len(loops))
+    else:
+        lp = loops[0]
+        if cont == "map":
+            if lp.get("k") != "ForRange" or R.key(lp.get("range")) != hv:
+                prob.append("loop does not range over %s" % hv)
+            it = lp.get("var")
+            src, dst = "%s.second" % it, "cumulative_hist[%s.first]" % it
+        else:
+            iv, i0, cond, inc = loop_shape(lp) if lp.get("k") == "For" else (None,) * 4
+            size_ok = cond == "(%s < %s.size())" % (iv, hv) or (cont == "array" and re.fullmatch(r"\(%s < (\d+)\)" % iv, cond or "") and
+                                                               re.search(r"std::array<[^,]+, %s(UL)?>" % re.fullmatch(r"\(%s < (\d+)\)" % iv, cond).group(1), f["params"][0]["type"]))
+            if i0 != "0" or not size_ok or inc not in ("(%s++)" % iv, "(++%s)" % iv):
+                prob.append("index loop (%s, %s, %s, %s)" % (iv, i0, cond, inc))
+            src, dst = "%s[%s]" % (hv, iv), "cumulative_hist[%s]" % iv
+        body_st = [R.key(x) for x, p in stm if any(a is lp and fld == "body" for a, fld, _ in p)]
+        if body_st != ["(cumulative_counter += %s)" % src, "(%s = cumulative_counter)" % dst]:
+            prob.append("loop body %s, expected running sum then store" % body_st)
+        if [x for x, _ in R.find(lp["body"], lambda x: x.get("k") in ("If", "Cond", "Switch", "Continue", "Break", "Return"))]:
+            prob.append("conditional statement inside the running sum")
+    if decl.get("cumulative_counter") not in ("0", "0.0"):
+        prob.append("counter starts at %s" % decl.get("cumulative_counter"))
+    if ret != ["cumulative_hist"]:
+        prob.append("returns %s" % ret)
+    if prob:
+        rep.violation("H7-std-cumulative", key, where, {"problems": prob})
+    else:
+        rep.ok("H7-std-cumulative", key, "counter from 0; every index/key in ascending order; add then store")
+
+
 def run(rep):
     C.need_tools(C.ASTDUMP)
     wd = C.workdir("C19")
@@ -78,14 +206,17 @@ def run(rep):
     rep.rule("H1 histogram::fill: full loop nest; skip iff applymask && !mask[y][x]; every channel / bin_width; key from the scaled pixel; one increment of bin[key] iff !setlimits || (lower <= key && key <= upper)")
     rep.rule("H1b tuple_compare(t1,t2) == AND over i of get<i>(t1) <= get<i>(t2)")
     rep.rule("H2 fill_histogram: clear iff !accumulate; dense pre-fill iff !sparsefill; hist.fill(view, bin_width, applymask, mask, lower, upper, setlimits)")
+    rep.rule("H2b dense pre-fill (detail::filler), which H2 shows to run on the accumulate path as well: creates bins, never overwrites or erases one")
     rep.rule("H3 cumulative_histogram: 1-D running sum over the sorted keys; n-D sum over all keys component-wise <= the key")
     rep.rule("H4 sub_histogram<Dims...>(): every bin is added into the bin of its projected key")
     rep.rule("H5 normalize: every bin divided by the sum of all bins; sum(): sum of all bins")
+    rep.rule("H6 std-container fill_histogram: container reset iff !accumulate; vector sized numeric_limits<gray channel>::max()+1 before the loop, array index scaled by (size-1)/max; exactly one unconditional ++bin[gray value] per pixel of the whole view")
+    rep.rule("H7 std-container cumulative_histogram: counter from 0, one loop over every index (map: every key in order), add then store, result returned")
     for f in fns:
         nm = f["name"]
         short = nm.split("::")[-1]
         rn = R.param_renamer(f)
-        where = "%s:%s" % (W, f["line"])
+        where = "%s:%s" % (("include/" + f["file"].split("/include/", 1)[1]) if "/include/" in f.get("file", "") else W, f["line"])
         # ---------------------------------------------------------------- H1
         if nm == "boost::gil::histogram::fill":
             dims = "3d" if "int, int, int" in f.get("cls", "") else "1d"
@@ -170,8 +301,50 @@ def run(rep):
                 rep.ok("H2-protocol", k, seq)
             else:
                 rep.violation("H2-protocol", "H2:fill_histogram", where, {"statements": seq, "documented": want})
+        # ---------------------------------------------------------------- H2b
+        if nm == "boost::gil::detail::filler::operator()" and f["params"]:
+            # fill_histogram runs the dense pre-fill on the accumulate path too (H2: guarded by !sparsefill only), so the
+            # pre-fill may create bins but must not overwrite one: its only effect on a bin is value-preserving
+            hp = f["params"][0]["name"]
+            writes = []
+            for x, p in R.find(f["body"], lambda x: x.get("k") in ("Assign", "CompoundAssign") or (x.get("k") == "Unary" and x.get("op") in ("++", "--")) or
+                               (x.get("k") == "Call" and x.get("op") in ("=", "+=", "-=", "*=", "/="))):
+                tgt = x.get("l") or x.get("e") or (x.get("args") or [None])[0]
+                tk = R.key(tgt)
+                if not re.match(r"%s(\(|\[|\.)" % re.escape(hp), tk):
+                    continue
+                op = x.get("op") or "="
+                rhs = R.key(x.get("r") or (x.get("args") or [None, None])[1]) if x.get("k") != "Unary" else None
+                keeps = (op in ("+=", "-=") and rhs in ("0", "0.0")) or (op in ("*=", "/=") and rhs in ("1", "1.0"))
+                writes.append((R.key(x), keeps))
+            erasers = [R.key(c) for c, _ in R.calls_in(f["body"], lambda n: n.split("::")[-1] in ("clear", "erase", "swap", "assign"))]
+            dims = "1" if writes or "<1>" in f.get("cls", "") + f.get("full", "") else "N"
+            rep.count("obligations:H2b")
+            k = "H2b:detail::filler<%s>::operator()" % ("1" if re.search(r"filler<1", f.get("cls", "") + f["full"]) else "N")
+            badw = [w for w, keeps in writes if not keeps] + erasers
+            # the call sites: harmless where the accumulate flag is known to be false
+            sites, exposed = 0, 0
+            for g in fns:
+                if g["name"] != "boost::gil::fill_histogram" or len(g["params"]) != 10:
+                    continue
+                acc = g["params"][3]["name"]
+                for c, pth in R.find(g["body"], lambda x: x.get("k") == "Call" and x["callee"].get("id") == f.get("id")):
+                    sites += 1
+                    if not any(op == "==" and l == acc and r == "0" for op, l, r in R.guards(pth)):
+                        exposed += 1
+            if badw and exposed:
+                rep.violation("H2b-prefill-keeps", k, where, {"overwrites": badw, "reached_with": "fill_histogram(..., accumulate = true, ...): %d of %d call(s) of the pre-fill are not guarded by !accumulate" % (exposed, sites)})
+            else:
+                rep.ok("H2b-prefill-keeps", k, {"writes": [w for w, _ in writes], "call_sites": sites, "reachable_with_accumulate": exposed})
+        # ---------------------------------------------------------------- H6 / H7
+        if nm == "boost::gil::fill_histogram" and len(f["params"]) == 3 and is_std(f["params"][1]["type"]):
+            rep.count("obligations:H6")
+            std_filler(f, rep, where)
+        if nm == "boost::gil::cumulative_histogram" and is_std(f["params"][0]["type"]):
+            rep.count("obligations:H7")
+            std_cumulative(f, rep, where)
         # ---------------------------------------------------------------- H3
-        if nm == "boost::gil::cumulative_histogram":
+        if nm == "boost::gil::cumulative_histogram" and not is_std(f["params"][0]["type"]):
             rep.count("obligations:H3")
             keys = [R.key(x) for x, _ in R.find(f["body"], lambda x: x.get("k") in ("Assign", "CompoundAssign") or (x.get("k") == "Call" and x.get("op") == "="))]
             sorts = [R.key(c) for c, _ in R.calls_in(f["body"], lambda n: n == "std::sort")]
@@ -219,6 +392,9 @@ def run(rep):
     rep.floor("obligations:H1", 2)
     rep.floor("obligations:H1b", 1)
     rep.floor("obligations:H2", 2)
+    rep.floor("obligations:H2b", 2)
     rep.floor("obligations:H3", 2)
     rep.floor("obligations:H4", 1)
     rep.floor("obligations:H5", 3)
+    rep.floor("obligations:H6", 6)
+    rep.floor("obligations:H7", 6)
